@@ -20,6 +20,8 @@ p = '/verif/DESIGN.md'
 s = open(p).read()
 a = s.index('### 8.5 Which check catches which seeded change')
 head = '### 8.5 Which check catches which seeded change\n\n%d stored changes, %d caught, %d of them only after a check was strengthened (column 5; the `history` field of the change\'s meta.json says how).\n\n' % (n, caught, strengthened)
-s = s[:a] + head + '\n'.join(rows) + '\n'
+b = s.find('\n### 8.6', a)
+tail = s[b:] if b >= 0 else '\n'
+s = s[:a] + head + '\n'.join(rows) + '\n' + tail
 open(p, 'w').write(s)
 print(n, caught, strengthened)
